@@ -13,6 +13,8 @@ package datatype
 //@   pure
 //@   ensures [C02] roundup: 0 <= n && n < 1<<62 ==> r >= n && r - n < 4 && r & 3 == 0
 //@   ensures [C02] rfc: r == pad4s(n)
+//@   replay rfc: ARG0 < 0 || ARG0 >= 1<<62 || (r0 >= ARG0 && r0-ARG0 < 4 && r0&3 == 0)
+//@   replay roundup: ARG0 < 0 || ARG0 >= 1<<62 || (r0 >= ARG0 && r0-ARG0 < 4 && r0&3 == 0)
 //@ end
 //@
 //@ # ---- the interface every AVP payload implements -------------------------
@@ -69,12 +71,14 @@ package datatype
 //@   implements datatype.DecoderFunc
 //@   ensures ok: err == nil && typeis(r, Unsigned32)
 //@   ensures [C01 C02] rfc_value: len(b) == 4 ==> uint32(r.(Unsigned32)) == be32(b, 0)
+//@   replay rfc_value: len(ARG0) != 4 || r1 != nil || uint32(r0.(Unsigned32)) == (uint32(ARG0[0])<<24|uint32(ARG0[1])<<16|uint32(ARG0[2])<<8|uint32(ARG0[3]))
 //@ end
 //@ func (Unsigned32).Serialize(v) (r)
 //@   property C01 C02 C03
 //@   modifies
 //@   implements datatype.Type.Serialize
 //@   ensures [C01 C02] rfc_layout: len(r) == 4 && be32(r, 0) == uint32(v) && fresh(r)
+//@   replay rfc_layout: len(r0) == 4 && (uint32(r0[0])<<24|uint32(r0[1])<<16|uint32(r0[2])<<8|uint32(r0[3])) == uint32(RECV)
 //@ end
 //@ func (Unsigned32).Len(v) (r)
 //@   property C01 C02 C03
@@ -99,12 +103,14 @@ package datatype
 //@   implements datatype.DecoderFunc
 //@   ensures ok: err == nil && typeis(r, Integer32)
 //@   ensures [C01 C02] rfc_value: len(b) == 4 ==> uint32(r.(Integer32)) == be32(b, 0)
+//@   replay rfc_value: len(ARG0) != 4 || r1 != nil || uint32(r0.(Integer32)) == (uint32(ARG0[0])<<24|uint32(ARG0[1])<<16|uint32(ARG0[2])<<8|uint32(ARG0[3]))
 //@ end
 //@ func (Integer32).Serialize(v) (r)
 //@   property C01 C02 C03
 //@   modifies
 //@   implements datatype.Type.Serialize
 //@   ensures [C01 C02] rfc_layout: len(r) == 4 && be32(r, 0) == uint32(v) && fresh(r)
+//@   replay rfc_layout: len(r0) == 4 && (uint32(r0[0])<<24|uint32(r0[1])<<16|uint32(r0[2])<<8|uint32(r0[3])) == uint32(RECV)
 //@ end
 //@ func (Integer32).Len(v) (r)
 //@   property C01 C02 C03
@@ -159,12 +165,14 @@ package datatype
 //@   implements datatype.DecoderFunc
 //@   ensures ok: err == nil && typeis(r, Unsigned64)
 //@   ensures [C01 C02] rfc_value: len(b) == 8 ==> uint64(r.(Unsigned64)) == be64(b, 0)
+//@   replay rfc_value: len(ARG0) != 8 || r1 != nil || uint64(r0.(Unsigned64)) == (uint64(ARG0[0])<<56|uint64(ARG0[1])<<48|uint64(ARG0[2])<<40|uint64(ARG0[3])<<32|uint64(ARG0[4])<<24|uint64(ARG0[5])<<16|uint64(ARG0[6])<<8|uint64(ARG0[7]))
 //@ end
 //@ func (Unsigned64).Serialize(v) (r)
 //@   property C01 C02 C03
 //@   modifies
 //@   implements datatype.Type.Serialize
 //@   ensures [C01 C02] rfc_layout: len(r) == 8 && be64(r, 0) == uint64(v) && fresh(r)
+//@   replay rfc_layout: len(r0) == 8 && (uint64(r0[0])<<56|uint64(r0[1])<<48|uint64(r0[2])<<40|uint64(r0[3])<<32|uint64(r0[4])<<24|uint64(r0[5])<<16|uint64(r0[6])<<8|uint64(r0[7])) == uint64(RECV)
 //@ end
 //@ func (Unsigned64).Len(v) (r)
 //@   property C01 C02 C03
@@ -189,12 +197,14 @@ package datatype
 //@   implements datatype.DecoderFunc
 //@   ensures ok: err == nil && typeis(r, Integer64)
 //@   ensures [C01 C02] rfc_value: len(b) == 8 ==> uint64(r.(Integer64)) == be64(b, 0)
+//@   replay rfc_value: len(ARG0) != 8 || r1 != nil || uint64(r0.(Integer64)) == (uint64(ARG0[0])<<56|uint64(ARG0[1])<<48|uint64(ARG0[2])<<40|uint64(ARG0[3])<<32|uint64(ARG0[4])<<24|uint64(ARG0[5])<<16|uint64(ARG0[6])<<8|uint64(ARG0[7]))
 //@ end
 //@ func (Integer64).Serialize(v) (r)
 //@   property C01 C02 C03
 //@   modifies
 //@   implements datatype.Type.Serialize
 //@   ensures [C01 C02] rfc_layout: len(r) == 8 && be64(r, 0) == uint64(v) && fresh(r)
+//@   replay rfc_layout: len(r0) == 8 && (uint64(r0[0])<<56|uint64(r0[1])<<48|uint64(r0[2])<<40|uint64(r0[3])<<32|uint64(r0[4])<<24|uint64(r0[5])<<16|uint64(r0[6])<<8|uint64(r0[7])) == uint64(RECV)
 //@ end
 //@ func (Integer64).Len(v) (r)
 //@   property C01 C02 C03
@@ -249,12 +259,14 @@ package datatype
 //@   implements datatype.DecoderFunc
 //@   ensures ok: err == nil && typeis(r, Enumerated)
 //@   ensures [C01 C02] rfc_value: len(b) == 4 ==> uint32(r.(Enumerated)) == be32(b, 0)
+//@   replay rfc_value: len(ARG0) != 4 || r1 != nil || uint32(r0.(Enumerated)) == (uint32(ARG0[0])<<24|uint32(ARG0[1])<<16|uint32(ARG0[2])<<8|uint32(ARG0[3]))
 //@ end
 //@ func (Enumerated).Serialize(v) (r)
 //@   property C01 C02 C03
 //@   modifies
 //@   implements datatype.Type.Serialize
 //@   ensures [C01 C02] rfc_layout: len(r) == 4 && be32(r, 0) == uint32(v) && fresh(r)
+//@   replay rfc_layout: len(r0) == 4 && (uint32(r0[0])<<24|uint32(r0[1])<<16|uint32(r0[2])<<8|uint32(r0[3])) == uint32(RECV)
 //@ end
 //@ func (Enumerated).Len(v) (r)
 //@   property C01 C02 C03
@@ -282,6 +294,7 @@ package datatype
 //@   ensures ok: err == nil
 //@   ensures [C03] dyn_type: typeis(r, Time)
 //@   ensures [C01 C02] rfc_value: len(b) == 4 ==> unixOf(r.(Time)) == unix_of_ntp(be32(b, 0))
+//@   replay rfc_value: len(ARG0) != 4 || func() bool { w := int64((uint32(ARG0[0])<<24|uint32(ARG0[1])<<16|uint32(ARG0[2])<<8|uint32(ARG0[3]))); want := w + 2085978496; if w>>31 == 1 { want = w - 2208988800 }; return time.Time(r0.(Time)).Unix() == want }()
 //@ end
 //@ func (Time).Serialize(v) (r)
 //@   property C01 C02 C03
